@@ -123,7 +123,9 @@ class ServerBase(object):
             ctx.out_object = (None,)
 
         elif isinstance(ctx.out_object, Ignored):
-            ctx.out_object = ()
+            # sent as empty, whatever the number of declared return values
+            ctx.out_object = (None,) * max(1,
+                              len(ctx.descriptor.out_message._type_info))
 
     def convert_pull_to_push(self, ctx, gen):
         oobj, = ctx.out_object
